@@ -918,6 +918,20 @@ def check_C17(ctx, tier, seed):
             sim_batch_procs(ctx, vd, cfg, bins[cfg], sc, n, abort_engine="asan" if cfg.startswith("asan") else "native-abort", env=env)
     # states only multi-GiB inputs reach (bucket counts up to and past 2^31 / 2^32): the C11 jump histories in the
     # debug-assertion + overflow-check build (hooked: state seam H3)
+    # the file helpers on real files, incl. calls from threads with a 192 KiB stack (stack exhaustion is a crash, too)
+    fscratch = os.path.join(ctx.build_root, "dbg", "files")
+    for cfg in ("dbg", "rel_unsafe"):
+        code, rep, err = run_sim(ctx, bins[cfg], ["hashfile", "--dir", fscratch, "--seed", seed], allow_abort=True)
+        if rep is not None:
+            rep["property"] = "C17"
+            # only crashes / panics count here (value mismatches belong to C12)
+            rep["violations"] = [v for v in rep.get("violations", []) if "PANIC" in v.get("detail", "")]
+            rep["violation_count"] = len(rep["violations"])
+            vd.add(cfg, rep)
+        else:
+            vd.add_violation(cfg, "c12file", {"class": "native-abort:hash_file on a small-stack thread", "index": 0, "engine": "hashfile",
+                                              "detail": "process died (exit %s) while hashing real files (every other file on a thread with a 192 KiB stack): %s" % (code, err[-300:].replace("\n", " | ")),
+                                              "history": {"seed": seed}})
     # serde visitors under debug assertions / overflow checks with feature unsafe (false invariants abort there)
     ds = try_build(ctx, "dbg_serde")
     if ds:
